@@ -1,4 +1,6 @@
 """Registry: property id -> stages (generator / validator pairs and model-level runs)."""
+import json, os, shutil, subprocess, time
+import driver
 from driver import Stage
 
 TLC_TRUST = ["TLC 1.8.0 and its Json/IOUtils modules",
@@ -109,4 +111,115 @@ def C19(tier, seed):
     }
 
 
-REGISTRY = {"C19": C19, "C18": C18, "C13": C13, "C07": C07, "C14": C14, "C15": C15}
+ACC_REQ = ["C09.outcome", "C09.books", "C09.count", "C09.query_pure", "C09.batch"]
+
+
+def acc_stage(fl, L, ty="f64", R=2, rich=1, shards=1, req=(), name=None, simulate=None):
+    return Stage(name or f"{fl}_{ty}_L{L}", ("Gen_Accum", "Gen_Accum.cfg"), ("Trace_Accum", "Trace_Accum.cfg"),
+                 env={"ACC_FL": fl, "ACC_L": L, "ACC_TY": ty, "ACC_R": R, "ACC_RICH": rich},
+                 required=list(ACC_REQ) + list(req), shards=shards, simulate=simulate,
+                 trace_timeout=3600)
+
+
+def C09(tier, seed):
+    mc = [("MC_Accum", "MC_Accum.cfg", {"ACC_R": 3, "ACC_V": 2, "ACC_K": 3 if tier == "quick" else 4, "ACC_FL": "harm"}, 8)]
+    stages = []
+    if tier == "quick":
+        stages.append(acc_stage("arith", 3, shards=8, req=["C09.act.add", "C09.act.add_assign", "C09.act.clone",
+                                                         "C09.act.extend", "C09.act.from_iter", "C09.act.append", "C09.act.new"]))
+        stages.append(acc_stage("arith", 2, ty="f32"))
+        for fl in ("geo", "harm", "paired", "unpaired", "prop", "quant"):
+            stages.append(acc_stage(fl, 2))
+    else:
+        for fl in ("arith", "geo", "harm", "paired", "unpaired", "prop", "quant"):
+            stages.append(acc_stage(fl, 3, shards=8))
+        stages.append(acc_stage("arith", 3, ty="f32", shards=8))
+        stages.append(acc_stage("arith", 4, rich=0, R=2, shards=8, name="arith_f64_L4"))
+        stages.append(acc_stage("unpaired", 30, R=6, name="unpaired_sim", simulate="num=400", shards=8))
+        stages.append(acc_stage("arith", 40, R=8, name="arith_sim", simulate="num=400", shards=8))
+        stages.append(acc_stage("harm", 40, R=8, name="harm_sim", simulate="num=300", shards=8))
+    stages[0].mc = mc
+    stages[0].required |= {"C09.act.add", "C09.act.add_assign"}
+    return {
+        "stages": stages,
+        "exhaustive": True,
+        "rule": "TLC enumerates by BFS every program of L calls (quick: L=3 for Arithmetic<f64>, L=2 for the six other flavours and "
+                "f32; thorough: L=3 everywhere, L=4 on a reduced alphabet, plus simulated programs of 30-40 calls over 6-8 registers) "
+                "over {new, append, extend, from_iter, clone, +=, +} and the flavour-specific feeders, including rejected values, failing "
+                "bulk calls and empty operands; after every call every register is observed twice and compared with the one-shot batch "
+                "computation on the multiset the specification says it represents. A program is distinct by its call sequence.",
+        "assumptions": TLC_TRUST + ["data are exactly summable small integers (bit-exact comparison); geometric means are compared within 2^-40 relative",
+                                   "real thread interleavings of a parallel reduce are not controlled: their possible merge orders are enumerated"],
+    }
+
+
+HARNESS_SERDE = os.path.join(driver.HARNESS_DIR, "target-serde", "release", "verif-harness")
+
+
+def run_builds(cases_path, trace_path):
+    """executor of the C20 build stage: one cargo build per feature set emitted by TLC"""
+    scratch = f"/tmp/verif-c20-target-{os.getpid()}"
+    evs = []
+    try:
+        for i, line in enumerate(open(cases_path)):
+            c = json.loads(line)
+            if c["flags"] == "@harness-serde":
+                cmd = ["cargo", "build", "--release", "--offline", "--features", "serde", "--target-dir", "target-serde"]
+                cwd = driver.HARNESS_DIR
+                env = dict(os.environ, CARGO_NET_OFFLINE="true")
+            else:
+                cmd = ["cargo", "build", "--offline"] + c["flags"].split()
+                cwd = "/repo"
+                env = dict(os.environ, CARGO_NET_OFFLINE="true", CARGO_TARGET_DIR=scratch)
+            t0 = time.time()
+            p = subprocess.run(cmd, cwd=cwd, env=env, stdout=subprocess.PIPE, stderr=subprocess.STDOUT, text=True)
+            errs = [l for l in p.stdout.splitlines() if l.startswith("error")]
+            c.update({"id": i + 1, "ok": p.returncode == 0, "err": (errs[0] if errs else "")[:300],
+                      "nerr": len(errs), "wall_s": int(time.time() - t0)})
+            driver.log(f"[build] {c['name']}: rc={p.returncode} ({time.time()-t0:.1f}s)")
+            evs.append(c)
+    finally:
+        shutil.rmtree(scratch, ignore_errors=True)
+    with open(trace_path, "w") as f:
+        for e in evs:
+            f.write(json.dumps(e) + "\n")
+
+
+def C20(tier, seed):
+    builds = Stage("builds", ("Gen_Build", "Gen_Build.cfg"), ("Trace_Build", "Trace_Build.cfg"),
+                   env={"BUILD_MODE": "builds"}, executor=run_builds, stop_on_violation=True,
+                   required=["C20.build." + n for n in ("default", "std", "std+approx", "std+serde", "all", "harness+serde")])
+    values = Stage("values", ("Gen_Build", "Gen_Build.cfg"), ("Trace_Build", "Trace_Build.cfg"),
+                   env={"BUILD_MODE": "values"}, harness_bin=HARNESS_SERDE,
+                   required=["C20.value.confidence", "C20.value.interval.f64", "C20.value.interval.i32",
+                             "C20.value.interval.String"])
+    L = 2 if tier == "quick" else 3
+    stages = [builds, values]
+    for fl in ("arith", "geo", "harm", "paired", "unpaired", "prop"):
+        st = acc_stage(fl, L, req=["C20.roundtrip_eq", "C20.twin", "C20.roundtrip." + fl], shards=8,
+                       name=f"rt_{fl}_L{L}")
+        st.env["ACC_RT"] = 1
+        st.harness_bin = HARNESS_SERDE
+        st.required -= set(ACC_REQ)
+        st.required |= {"C20.roundtrip_eq", "C20.twin"}
+        stages.append(st)
+    big = acc_stage("arith", 3, ty="f32", rich=0, req=[], shards=8, name="rt_arith_f32_big")
+    big.env.update({"ACC_RT": 1, "ACC_BIG": 1})
+    big.harness_bin = HARNESS_SERDE
+    big.required = {"C20.roundtrip_eq", "C20.twin"}
+    stages.append(big)
+    return {
+        "stages": stages,
+        "level": "model_checking",
+        "exhaustive": True,
+        "rule": "the six cargo feature builds (default, std, std+approx, std+serde, all, and the serde-enabled harness) on /repo's working tree; "
+                "serde_json round trips of Confidence (3 kinds x 4 levels) and Interval (3 kinds x f64/i32/String); every program of L calls "
+                "(L=2 quick, 3 thorough) of the six serializable statistics with a round trip as an additional action at every position, the "
+                "restored state compared (==) with the original and every later observation compared bit-for-bit with a twin history without "
+                "round trips; f32 data above 2^24 give non-zero compensation terms.",
+        "assumptions": TLC_TRUST + ["the build matrix is a plain enumeration of cargo invocations (TLA+ contributes the configuration set and the judge)",
+                                   "round trips go through serde_json; finite data only"],
+    }
+
+
+REGISTRY = {"C20": C20, "C09": C09, "C19": C19, "C18": C18, "C13": C13, "C07": C07, "C14": C14, "C15": C15}
